@@ -200,6 +200,18 @@ Qed.
 Theorem no_escaping_state : escaping_guarded_state = [].
 Proof. vm_compute. reflexivity. Qed.
 
+(* ---------------------------------------------------------------- one critical section per operation *)
+
+(* No function takes the mutex of an object again after it has released it:
+   whatever an operation (Close, PushConn, AddClient, DelClient, SetLocked,
+   Put, Get, ...) does under an object's lock is ONE atomic step with respect
+   to that lock -- this is the step granularity the lifecycle models assume.
+   A teardown that detaches its connections, unlocks, and re-locks to mark
+   itself closed (leaving a window in which a concurrent PushConn attaches a
+   connection nobody will detach) makes this list non-empty. *)
+Theorem atomic_sections : split_critical_sections = [].
+Proof. vm_compute. reflexivity. Qed.
+
 (* ---------------------------------------------------------------- nothing the translator did not understand *)
 
 Theorem nothing_unknown : unknown = [].
